@@ -184,7 +184,7 @@ Proof.
       assert (N : forall z, In z (map fst fs) -> ~ In z (fv e)).
       { intros z Hz Hze. pose proof (forallb_In _ _ _ z H1 Hz) as Hm. cbn beta in Hm.
         apply negb_true_iff in Hm. apply mem_false_In in Hm. contradiction. }
-      constructor. revert E N. generalize (map fst fs) as ns. intros ns E N.
+      constructor. clear H1. revert E N. generalize (map fst fs) as ns. intros ns E N.
       induction H as [|[f b] fs' Hb Hfs IH]; cbn [map]; [constructor|].
       cbn [forallb snd fst] in *. apply andb_prop in H2. destruct H2 as [H2 H3].
       pose proof (has_deps_subst ns x e b E N) as Hd.
@@ -201,56 +201,43 @@ Proof.
   - apply C_import.
 Qed.
 
+Lemma shift_equiv : forall A (f g : nat -> outcome A),
+  f 0 = OutOfFuel -> (forall n, f (S n) = g n) -> oequiv f g.
+Proof.
+  intros A f g H0 HS. split; intros n Hn.
+  - destruct n as [|n]; [congruence|]. exists n. rewrite HS in *. now apply orel_eq_refl.
+  - exists (S n). rewrite HS. now apply orel_eq_refl.
+Qed.
+
+Lemma crel_run_equiv : forall t1 r1 t2 r2,
+  crel [] t1 r1 t2 r2 -> run_equiv fl r1 t1 r2 t2.
+Proof.
+  intros t1 r1 t2 r2 Hc. split; intros n Hn; cbn beta in *.
+  - destruct (crel_run fl _ _ _ _ _ _ Hc eq_refl Hn) as [m Em]. exists m. rewrite Em.
+    now apply orel_eq_refl.
+  - destruct (crel_run fl _ _ _ _ _ _ (crel_sym fl _ _ _ _ _ Hc) eq_refl Hn) as [m Em]. exists m. rewrite Em.
+    now apply orel_eq_refl.
+Qed.
+
 (* let x = e in b  ≃  b[e/x] *)
 Theorem let_abs : forall rho x e b,
   nocap (fv e) x b = true -> run_equiv fl rho (Let x e b) rho (subst x e b).
 Proof.
   intros rho x e b Hnc.
   pose proof (crel_subst x e rho b [] (fun H => H) Hnc (fun _ _ H => H)) as Hc.
-  split; intros n Hn; cbn beta in *.
-  - unfold run in Hn |- *. destruct n as [|n]; [cbn in Hn; congruence|]. cbn [eval] in Hn.
-    assert (Hn' : run fl (S n) ((x, BClos e rho) :: rho) b <> OutOfFuel).
-    { unfold run. intros Hx. apply Hn.
-      destruct (eval fl n ((x, BClos e rho) :: rho) b) eqn:E; cbn [bind] in *.
-      - rewrite (eval_mono fl n (S n) _ _ _ E) in Hx by (try discriminate; lia). exact Hx.
-      - reflexivity.
-      - reflexivity. }
-    destruct (crel_run fl _ _ _ _ _ _ Hc eq_refl Hn') as [m Em].
-    exists m. unfold run in Em. rewrite Em. unfold run.
-    destruct (eval fl n ((x, BClos e rho) :: rho) b) eqn:E; cbn [bind] in *; [| |congruence].
-    + rewrite (eval_mono fl n (S n) _ _ _ E) by (try discriminate; lia). cbn [bind].
-      apply orel_eq_refl. exact Hn.
-    + rewrite (eval_mono fl n (S n) _ _ _ E) by (try discriminate; lia). reflexivity.
-  - destruct (crel_run fl _ _ _ _ _ _ (crel_sym fl _ _ _ _ _ Hc) eq_refl Hn) as [m Em].
-    exists (S m). unfold run in *. cbn [eval].
-    rewrite <- Em.
-    destruct (eval fl m ((x, BClos e rho) :: rho) b) eqn:E; cbn [bind] in *.
-    + rewrite (export_mono fl m (S m) _ _ eq_refl) by (try lia; congruence).
-      apply orel_eq_refl. congruence.
-    + reflexivity.
-    + congruence.
+  eapply oequiv_trans; [|apply (crel_run_equiv _ _ _ _ Hc)].
+  apply eval_equiv_run_equiv. apply shift_equiv; reflexivity.
 Qed.
 
 (* (fun x => b) e  ≃  b[e/x] *)
 Theorem beta_abs : forall rho x e b,
   nocap (fv e) x b = true -> run_equiv fl rho (App (Lam x b) e) rho (subst x e b).
 Proof.
-  intros rho x e b Hnc. eapply oequiv_trans; [|apply (let_abs rho x e b Hnc)].
-  (* App (Lam x b) e and Let x e b take the same steps *)
-  split; intros n Hn; cbn beta in *; unfold run in *.
-  - destruct n as [|[|n]]; [cbn in Hn; congruence|cbn in Hn; congruence|].
-    exists (S (S n)). remember (S n) as k. cbn [eval] in Hn |- *.
-    assert (E : eval fl k rho (Lam x b) = Ok (VClo x b rho)) by (subst k; reflexivity).
-    rewrite E in Hn. cbn [bind] in Hn. apply orel_eq_refl. exact Hn.
-  - destruct n as [|n]; [cbn in Hn; congruence|]. cbn [eval] in Hn.
-    exists (S (S n)). remember (S n) as k. cbn [eval].
-    assert (E : eval fl k rho (Lam x b) = Ok (VClo x b rho)) by (subst k; reflexivity).
-    rewrite E. cbn [bind]. subst k.
-    destruct (eval fl n ((x, BClos e rho) :: rho) b) eqn:E2; cbn [bind] in *; [| |congruence].
-    + rewrite (eval_mono fl n (S n) _ _ _ E2) by (try discriminate; lia). cbn [bind].
-      rewrite (export_mono fl (S n) (S (S n)) _ _ eq_refl) by (try lia; congruence).
-      apply orel_eq_refl. exact Hn.
-    + rewrite (eval_mono fl n (S n) _ _ _ E2) by (try discriminate; lia). reflexivity.
+  intros rho x e b Hnc.
+  pose proof (crel_subst x e rho b [] (fun H => H) Hnc (fun _ _ H => H)) as Hc.
+  eapply oequiv_trans; [|apply (crel_run_equiv _ _ _ _ Hc)].
+  apply eval_equiv_run_equiv. apply shift_equiv; [reflexivity|].
+  intros [|n]; reflexivity.
 Qed.
 
 End Abs.
